@@ -70,6 +70,8 @@ def _c11(spec):
                     out += ["fail", "fail-all"]
             if prog == "squeue" and "squeue" in kinds and v.index not in w.sim.squeue_down:
                 out.append("fail-all")
+            if prog == "scancel" and "scancel" in kinds:
+                out.append("fail")
         if op.kind == "acquire" and "lock" in kinds:
             out.append("lock-timeout")
         if op.kind == "file" and "write" in kinds and (op.detail.startswith("open-w") or op.detail.startswith("commit")):
